@@ -24,14 +24,14 @@ func verifHarnessC20() {
 	big := verifParam("bigval")
 	switch verifChoice("after", 3) {
 	case 1:
-		ki := verifChoice("aki", len(kp.keys))
+		ki := verifChoice("aki", kp.hot())
 		v := verifBytes("av", 1)
 		verifAssert(src.Put(kp.keys[ki], v) == nil, "C20.put-after-backup-err")
 		m.put(ki, v)
 		verifReach("small-put-after-backup")
 	case 2:
 		if big > 0 {
-			ki := verifChoice("aki", len(kp.keys))
+			ki := verifChoice("aki", kp.hot())
 			v := make([]byte, big)
 			for i := range v {
 				v[i] = byte(i*7 + 1)
